@@ -8,6 +8,10 @@
 // generated program ends in an epilogue that stores the WHOLE final stack behind the used memory
 // and RETURNs memory+stack, so the observation is the return data and the left-over gas.
 // Oracle: model.C15Exec, an independent math/big interpreter with a hand-typed Istanbul gas table.
+//
+// Memory: the active memory size (MSIZE) and the expansion gas of every memory-touching opcode are
+// judged by the memory programs of mem.go; since the epilogue above expands memory itself, bodies
+// are also completed by tightEpilogue, under which the gas of the whole program is exact.
 package c15
 
 import (
@@ -24,6 +28,7 @@ import (
 
 	"github.com/youchainhq/go-youchain/common"
 	"github.com/youchainhq/go-youchain/core/state"
+	"github.com/youchainhq/go-youchain/core/types"
 	"github.com/youchainhq/go-youchain/core/vm/runtime"
 	"github.com/youchainhq/go-youchain/params"
 	"github.com/youchainhq/go-youchain/youdb"
@@ -136,9 +141,12 @@ type env struct {
 	n     uint64 // programs run on this state
 	addrN uint64
 	last  outcome // what the real interpreter did in the latest compare()
+	input []byte  // call data of the programs run next (nil outside the memory phase)
+	logN  int     // LOGn records the state held before the latest call
 	bad   bool    // reference/harness problem: case must end inconclusive
 	why   string
 	ops   [256]int64
+	mem   [len(model.C15MemSits)][10]int64 // memory accesses of program bodies by situation and opcode group
 	cnt   map[string]int
 	nsamp int
 }
@@ -172,6 +180,7 @@ func (e *env) reset() {
 	// jump table on the first call, exactly as in the repository's runtime tests.
 	e.cfg = &runtime.Config{State: st, Time: big.NewInt(1600000000), BlockNumber: big.NewInt(1), Origin: common.HexToAddress("0x00000000000000000000000000000000000c15aa")}
 	e.n = 0
+	e.logN = 0
 }
 
 func (e *env) freshAddr() common.Address {
@@ -190,6 +199,7 @@ type outcome struct {
 	left uint64
 	err  error
 	pan  interface{}
+	logs []*types.Log // records added by this call (after its own revert, if any)
 }
 
 func (e *env) call(addr common.Address, code []byte, gas uint64) (o outcome) {
@@ -197,16 +207,25 @@ func (e *env) call(addr common.Address, code []byte, gas uint64) (o outcome) {
 	e.st.SetCode(addr, code)
 	e.cfg.GasLimit = gas
 	o.pan = kit.Guard(func() {
-		ret, left, err := runtime.Call(addr, nil, e.cfg)
+		ret, left, err := runtime.Call(addr, e.input, e.cfg)
 		o.ret, o.left, o.err = append([]byte{}, ret...), left, err
 	})
+	if o.pan == nil {
+		all := e.st.GetLogs(common.Hash{})
+		if len(all) > e.logN {
+			o.logs = all[e.logN:]
+		}
+		e.logN = len(all)
+	} else {
+		kit.Guard(func() { e.logN = len(e.st.GetLogs(common.Hash{})) })
+	}
 	return
 }
 
 func (e *env) execute(code []byte, gas uint64) (o outcome) {
 	cfg := &runtime.Config{Time: big.NewInt(1600000000), BlockNumber: big.NewInt(1), GasLimit: gas, EVMConfig: e.cfg.EVMConfig}
 	o.pan = kit.Guard(func() {
-		ret, _, err := runtime.Execute(code, nil, cfg)
+		ret, _, err := runtime.Execute(code, e.input, cfg)
 		o.ret, o.err = append([]byte{}, ret...), err
 	})
 	return
@@ -217,6 +236,7 @@ type witness struct {
 	Op       string   `json:"op,omitempty"`
 	Operands []string `json:"operands_top_first,omitempty"`
 	Code     string   `json:"code"`
+	Input    string   `json:"calldata,omitempty"`
 	Asm      string   `json:"asm"`
 	Gas      uint64   `json:"gas_limit"`
 	WantRet  string   `json:"want_return"`
@@ -247,31 +267,56 @@ type verdict struct {
 // status and (when gasChecked) gas used. tag is appended to violation classes (opcode name or
 // "program"). firstDiffWord receives the index of the first differing 32-byte word (-1: none).
 func (e *env) compare(addr common.Address, code []byte, gas uint64, storage map[[32]byte][32]byte, gasChecked bool, tag string) (v verdict, want *model.C15Out, diffWord int) {
-	want = model.C15Exec(code, gas, storage)
+	want = model.C15ExecIn(code, e.input, gas, storage)
 	got := e.call(addr, code, gas)
 	e.last = got
 	diffWord = -1
-	w := witness{Kind: tag, Code: hex.EncodeToString(code), Asm: disasm(code), Gas: gas, WantRet: hex.EncodeToString(want.Ret), GotRet: hex.EncodeToString(got.ret),
-		WantGas: want.GasUsed, GotGas: gas - got.left}
-	if got.err != nil {
-		w.Err = got.err.Error()
+	// the witness is only rendered when something is wrong (hex/disassembly of every program is costly)
+	w := func() witness {
+		w := witness{Kind: tag, Code: hex.EncodeToString(code), Input: hex.EncodeToString(e.input), Asm: disasm(code), Gas: gas, WantRet: hex.EncodeToString(want.Ret), GotRet: hex.EncodeToString(got.ret),
+			WantGas: want.GasUsed, GotGas: gas - got.left}
+		if got.err != nil {
+			w.Err = got.err.Error()
+		}
+		if got.pan != nil {
+			w.Panic = fmt.Sprint(got.pan)
+		}
+		return w
 	}
 	if got.pan != nil {
-		w.Panic = fmt.Sprint(got.pan)
-		return verdict{panicClass(got.pan), fmt.Sprintf("interpreter panicked: %v", got.pan), w}, want, diffWord
+		return verdict{panicClass(got.pan), fmt.Sprintf("interpreter panicked: %v", got.pan), w()}, want, diffWord
 	}
 	if want.Err != "" {
 		// reference says exceptional halt: the real interpreter must fail too and keep no gas
 		if got.err == nil {
-			return verdict{"exceptional-halt-missed:" + tag, fmt.Sprintf("specification: %s at pc %d; interpreter returned success with %d bytes", want.Err, want.ErrPC, len(got.ret)), w}, want, diffWord
+			return verdict{"exceptional-halt-missed:" + tag, fmt.Sprintf("specification: %s at pc %d; interpreter returned success with %d bytes", want.Err, want.ErrPC, len(got.ret)), w()}, want, diffWord
 		}
 		if got.left != 0 {
-			return verdict{"exceptional-halt-keeps-gas:" + tag, fmt.Sprintf("specification: %s consumes all gas; %d gas left", want.Err, got.left), w}, want, diffWord
+			return verdict{"exceptional-halt-keeps-gas:" + tag, fmt.Sprintf("specification: %s consumes all gas; %d gas left", want.Err, got.left), w()}, want, diffWord
+		}
+		if len(got.logs) != 0 {
+			return verdict{"log-survives-failure:" + tag, fmt.Sprintf("specification: %s discards the frame's effects; %d LOG record(s) remain in the state", want.Err, len(got.logs)), w()}, want, diffWord
 		}
 		return verdict{}, want, diffWord
 	}
-	if got.err != nil {
-		return verdict{"unexpected-error:" + tag, fmt.Sprintf("valid program (reference: normal halt, %d gas of %d) failed: %v", want.GasUsed, gas, got.err), w}, want, diffWord
+	if want.Reverted {
+		// REVERT: signalled as such, output = the chosen memory slice, unused gas kept, no effects
+		if got.err == nil {
+			return verdict{"revert-not-signalled:" + tag, fmt.Sprintf("specification: the program halts by REVERT (%d bytes of output); the interpreter reports a normal halt", len(want.Ret)), w()}, want, diffWord
+		}
+		if !strings.Contains(got.err.Error(), "reverted") {
+			return verdict{"unexpected-error:" + tag, fmt.Sprintf("valid program (reference: REVERT, %d gas of %d) failed: %v", want.GasUsed, gas, got.err), w()}, want, diffWord
+		}
+		if len(got.logs) != 0 {
+			return verdict{"log-survives-failure:" + tag, fmt.Sprintf("specification: REVERT discards the frame's effects; %d LOG record(s) remain in the state", len(got.logs)), w()}, want, diffWord
+		}
+	} else if got.err != nil {
+		return verdict{"unexpected-error:" + tag, fmt.Sprintf("valid program (reference: normal halt, %d gas of %d) failed: %v", want.GasUsed, gas, got.err), w()}, want, diffWord
+	}
+	if !want.Reverted {
+		if d := diffLogs(got.logs, want.Logs); d != "" {
+			return verdict{"log-mismatch:" + tag, "LOG records differ from the reference: " + d, w()}, want, diffWord
+		}
 	}
 	if !bytes.Equal(got.ret, want.Ret) {
 		n := len(want.Ret)
@@ -286,12 +331,34 @@ func (e *env) compare(addr common.Address, code []byte, gas uint64, storage map[
 			}
 		}
 		return verdict{"result-mismatch:" + tag, fmt.Sprintf("return data differs from the reference at word %d (of %d): got %s want %s", diffWord, len(want.Ret)/32,
-			wordAt(got.ret, diffWord), wordAt(want.Ret, diffWord)), w}, want, diffWord
+			wordAt(got.ret, diffWord), wordAt(want.Ret, diffWord)), w()}, want, diffWord
 	}
 	if gasChecked && gas-got.left != want.GasUsed {
-		return verdict{"gas-mismatch:" + tag, fmt.Sprintf("gas used %d, specified %d (difference %d)", gas-got.left, want.GasUsed, int64(gas-got.left)-int64(want.GasUsed)), w}, want, diffWord
+		return verdict{"gas-mismatch:" + tag, fmt.Sprintf("gas used %d, specified %d (difference %d)", gas-got.left, want.GasUsed, int64(gas-got.left)-int64(want.GasUsed)), w()}, want, diffWord
 	}
 	return verdict{}, want, diffWord
+}
+
+// diffLogs compares the LOG records the call left in the state with the reference's ("" = equal).
+func diffLogs(got []*types.Log, want []model.C15Log) string {
+	if len(got) != len(want) {
+		return fmt.Sprintf("%d record(s), specified %d", len(got), len(want))
+	}
+	for i, g := range got {
+		w := want[i]
+		if len(g.Topics) != len(w.Topics) {
+			return fmt.Sprintf("record %d: %d topics, specified %d", i, len(g.Topics), len(w.Topics))
+		}
+		for j := range g.Topics {
+			if g.Topics[j] != common.Hash(w.Topics[j]) {
+				return fmt.Sprintf("record %d topic %d: %x, specified %x", i, j, g.Topics[j], w.Topics[j])
+			}
+		}
+		if !bytes.Equal(g.Data, w.Data) {
+			return fmt.Sprintf("record %d data: %x, specified %x", i, g.Data, w.Data)
+		}
+	}
+	return ""
 }
 
 func wordAt(b []byte, i int) string {
@@ -305,35 +372,50 @@ func wordAt(b []byte, i int) string {
 	return hex.EncodeToString(b[i*32 : j])
 }
 
-// gasEdges re-runs a gas-checked program with exactly the specified gas (must succeed with the
-// same output and nothing left) and with one unit less (must fail).
+// gasEdges re-runs a gas-checked program with exactly the specified gas (must halt the same way
+// with the same output and nothing left) and with one unit less (must fail). The reference is
+// evaluated again for the exact limit because a program may look at its gas (GAS).
 func (e *env) gasEdges(code []byte, want *model.C15Out, tag string) verdict {
 	if want.GasUsed == 0 {
 		return verdict{}
 	}
-	addr := e.freshAddr()
-	got := e.call(addr, code, want.GasUsed)
-	w := witness{Kind: tag, Code: hex.EncodeToString(code), Asm: disasm(code), Gas: want.GasUsed, WantRet: hex.EncodeToString(want.Ret), GotRet: hex.EncodeToString(got.ret), WantGas: want.GasUsed, GotGas: want.GasUsed - got.left}
-	if got.pan != nil {
-		w.Panic = fmt.Sprint(got.pan)
-		return verdict{panicClass(got.pan), fmt.Sprintf("interpreter panicked: %v", got.pan), w}
+	exact := model.C15ExecIn(code, e.input, want.GasUsed, nil)
+	if exact.Err != "" || exact.GasUsed != want.GasUsed || exact.Reverted != want.Reverted {
+		e.bad, e.why = true, fmt.Sprintf("reference: gas consumption depends on the gas limit (%d with plenty, %q/%d with exactly that): %s", want.GasUsed, exact.Err, exact.GasUsed, disasm(code))
+		return verdict{}
 	}
-	e.cnt["gas_exact_limit_runs"]++
-	if got.err != nil || !bytes.Equal(got.ret, want.Ret) || got.left != 0 {
+	addr := e.freshAddr()
+	limit := want.GasUsed
+	got := e.call(addr, code, limit)
+	w := func() witness { // rendered only when something is wrong
+		w := witness{Kind: tag, Code: hex.EncodeToString(code), Input: hex.EncodeToString(e.input), Asm: disasm(code), Gas: limit, WantRet: hex.EncodeToString(exact.Ret), GotRet: hex.EncodeToString(got.ret), WantGas: want.GasUsed, GotGas: limit - got.left}
 		if got.err != nil {
 			w.Err = got.err.Error()
 		}
-		return verdict{"gas-exact-limit-fails:" + tag, fmt.Sprintf("with exactly the specified gas (%d) the program must halt normally with nothing left: err=%v left=%d same-output=%v", want.GasUsed, got.err, got.left, bytes.Equal(got.ret, want.Ret)), w}
+		if got.pan != nil {
+			w.Panic = fmt.Sprint(got.pan)
+		}
+		return w
 	}
-	got = e.call(addr, code, want.GasUsed-1)
-	w.Gas, w.GotRet, w.GotGas = want.GasUsed-1, hex.EncodeToString(got.ret), want.GasUsed-1-got.left
 	if got.pan != nil {
-		w.Panic = fmt.Sprint(got.pan)
-		return verdict{panicClass(got.pan), fmt.Sprintf("interpreter panicked: %v", got.pan), w}
+		return verdict{panicClass(got.pan), fmt.Sprintf("interpreter panicked: %v", got.pan), w()}
+	}
+	e.cnt["gas_exact_limit_runs"]++
+	sameHalt := got.err == nil
+	if want.Reverted {
+		sameHalt = got.err != nil && strings.Contains(got.err.Error(), "reverted")
+	}
+	if !sameHalt || !bytes.Equal(got.ret, exact.Ret) || got.left != 0 {
+		return verdict{"gas-exact-limit-fails:" + tag, fmt.Sprintf("with exactly the specified gas (%d) the program must halt as specified with nothing left: err=%v left=%d same-output=%v", want.GasUsed, got.err, got.left, bytes.Equal(got.ret, exact.Ret)), w()}
+	}
+	limit = want.GasUsed - 1
+	got = e.call(addr, code, limit)
+	if got.pan != nil {
+		return verdict{panicClass(got.pan), fmt.Sprintf("interpreter panicked: %v", got.pan), w()}
 	}
 	e.cnt["gas_minus_one_runs"]++
-	if got.err == nil {
-		return verdict{"gas-undercharged:" + tag, fmt.Sprintf("with one gas less than specified (%d) the program still halts normally", want.GasUsed-1), w}
+	if got.err == nil || strings.Contains(got.err.Error(), "reverted") {
+		return verdict{"gas-undercharged:" + tag, fmt.Sprintf("with one gas less than specified (%d) the program still halts normally", want.GasUsed-1), w()}
 	}
 	return verdict{}
 }
@@ -348,6 +430,37 @@ func (e *env) tally(o *model.C15Out) {
 	e.cnt["ev_exp_exponent_bytes"] += o.ExpBytes
 	e.cnt["memory_readbacks_mload"] += o.MemReads
 	e.cnt["storage_readbacks_sload"] += o.SLoads
+}
+
+// tallyMem counts the kinds of memory accesses of a program BODY (the reference's view of it,
+// without the epilogue the harness appends): mem_<situation> over all opcodes and, for the
+// situations in which a wrong access size of one opcode matters, mem_<situation>_<opcode group>
+// (e.g. mem_unaligned_mstore8, mem_in_last_active_word_mstore8).
+func (e *env) tallyMem(body *model.C15Out) {
+	for sit := range body.MemEv {
+		for g, n := range body.MemEv[sit] {
+			e.mem[sit][g] += int64(n)
+		}
+	}
+}
+
+var perGroupSits = map[int]bool{model.C15SitUnaligned: true, model.C15SitInLastActiveWord: true, model.C15SitStraddlesEnd: true,
+	model.C15SitExpandsByOneWord: true, model.C15SitFreshMemory: true, model.C15SitZeroLengthAtHugeOffset: true}
+
+func (e *env) flushMem() {
+	for sit := range e.mem {
+		var total int64
+		for g, n := range e.mem[sit] {
+			total += n
+			if n != 0 && perGroupSits[sit] {
+				e.c.Count("mem_"+model.C15MemSits[sit]+"_"+model.C15MemGroups[g], int(n))
+			}
+		}
+		if total != 0 {
+			e.c.Count("mem_"+model.C15MemSits[sit], int(total))
+		}
+	}
+	e.mem = [len(model.C15MemSits)][10]int64{}
 }
 
 func (e *env) flush() {
@@ -379,6 +492,7 @@ func (e *env) flush() {
 	}
 	e.ops = [256]int64{}
 	e.cnt = map[string]int{}
+	e.flushMem()
 }
 
 // ---- value generators ---------------------------------------------------------------------------
@@ -718,6 +832,11 @@ func genProgram(r *rand.Rand, withStorage bool) *progInfo {
 			emit(model.C15SLOAD)
 			d++
 			p.feats["sload"] = true
+		case x >= 66 && x < 69 && d < 30:
+			// the active memory size becomes an operand of what follows
+			emit(model.C15MSIZE)
+			d++
+			p.feats["msize"] = true
 		default:
 			op := compOps[r.Intn(len(compOps))]
 			ar := model.C15Arity[op]
@@ -755,6 +874,46 @@ func complete(body []byte, storage map[[32]byte][32]byte) ([]byte, *model.C15Out
 		return nil, pre
 	}
 	return append(append([]byte{}, body...), epilogue(len(pre.Stack), len(pre.Mem))...), pre
+}
+
+// tightEpilogue: MSIZE, then as many stack words (top first, so MSIZE lands in word 0) as fit
+// are stored INTO the memory that is already active, and exactly the active memory is returned.
+// Nothing here expands memory, so the gas of the whole program is the body's plus a constant that
+// does not depend on how far memory was expanded: a body instruction that activates more (or
+// less) memory than specified shows in the program's total gas and in word 0. Needs memLen >= 32.
+func tightEpilogue(depth, memLen int) []byte {
+	a := &asm{}
+	a.op(model.C15MSIZE)
+	depth++
+	for j := 0; j < depth && 32*(j+1) <= memLen; j++ {
+		a.pushU(uint64(32 * j)).op(model.C15MSTORE)
+	}
+	a.pushU(uint64(memLen)).pushU(0).op(model.C15RETURN)
+	return a.b
+}
+
+// completeTight: body + tightEpilogue (ok = false when the reference rejects the body or the body
+// leaves no active memory to put the observation in).
+func completeTight(body, input []byte) (code []byte, pre *model.C15Out, ok bool) {
+	pre = model.C15ExecIn(body, input, gasPlenty, nil)
+	if pre.Err != "" || pre.Reverted || pre.Steps == 0 || len(pre.Mem) < 32 || endsInHalt(body) {
+		return nil, pre, false
+	}
+	return append(append([]byte{}, body...), tightEpilogue(len(pre.Stack), len(pre.Mem))...), pre, true
+}
+
+// endsInHalt: the last instruction of a straight-line body is RETURN/REVERT/STOP.
+func endsInHalt(body []byte) bool {
+	c := cuts(body)
+	if len(c) == 0 {
+		return false
+	}
+	start := 0
+	if len(c) >= 2 {
+		start = c[len(c)-2]
+	}
+	op := body[start]
+	return op == model.C15RETURN || op == model.C15REVERT || op == model.C15STOP
 }
 
 // instruction boundaries of a straight-line body
@@ -803,7 +962,7 @@ func lastIns(body []byte) string {
 
 type caseDef struct {
 	id   string
-	kind int // 0 boundary, 1 random tuples, 2 random programs, 3 hostile memory offsets
+	kind int // 0 boundary, 1 random tuples, 2 random programs, 3 hostile memory offsets, 4 memory programs
 	op   byte
 	i0   int
 }
@@ -849,6 +1008,10 @@ func run(c *kit.Ctx) {
 	}
 	// (c) memory opcodes with unaffordable offsets
 	cases = append(cases, caseDef{id: "m/offsets", kind: 3})
+	// (d) memory programs: active memory size and expansion gas of every memory-touching opcode
+	for k, n := 0, c.N(320, 5400); k < n; k++ {
+		cases = append(cases, caseDef{id: fmt.Sprintf("mem/%d", k), kind: 4})
+	}
 
 	e := newEnv(c)
 	for i, cd := range cases {
@@ -869,7 +1032,11 @@ func run(c *kit.Ctx) {
 		case 2:
 			e.runPrograms(r, 200)
 		case 3:
-			e.runOffsets(r)
+			if e.runOffsets(r) && !e.bad {
+				e.runMemOffsets(r)
+			}
+		case 4:
+			e.runMemPrograms(r, 150)
 		}
 		e.flush()
 		if e.bad {
@@ -991,7 +1158,15 @@ func (e *env) runPrograms(r *rand.Rand, n int) {
 		}
 		c.Max("max_program_stack_depth", int64(p.maxDepth))
 		if v.class != "" {
-			if mv, ok := e.minimise(p.body, storage, gasChecked); ok {
+			// a wrong active memory size (the body looks at MSIZE) is named after the instruction that
+			// produced it; anything else is cut to the shortest failing prefix as before
+			var mv verdict
+			if gasChecked && len(storage) == 0 {
+				mv = e.minimiseMem(p.body, nil, v)
+			}
+			if strings.HasPrefix(mv.class, "memory-") {
+				v = mv
+			} else if mv, ok := e.minimise(p.body, storage, gasChecked); ok {
 				mv.wit.Note += "; full program: " + hex.EncodeToString(code)
 				v = mv
 			}
@@ -1002,6 +1177,21 @@ func (e *env) runPrograms(r *rand.Rand, n int) {
 			if v := e.gasEdges(code, want, "program"); v.class != "" {
 				c.Violation(v.class, v.msg, v.wit)
 				return
+			}
+		}
+		e.tallyMem(pre)
+		if gasChecked && k%4 == 2 {
+			// the same body under the tight epilogue: MSIZE observed, and no expansion by the harness, so
+			// the total gas is sensitive to the active memory size the body really produced
+			if tight, _, ok := completeTight(p.body, nil); ok {
+				v, _, _ := e.compare(e.freshAddr(), tight, gasPlenty, nil, true, "program")
+				e.cnt["mem_exact_gas_programs"]++
+				e.cnt["random_programs_exact_gas"]++
+				if v.class != "" {
+					v = e.minimiseMem(p.body, nil, v)
+					c.Violation(v.class, v.msg, v.wit)
+					return
+				}
 			}
 		}
 		if withStorage {
@@ -1025,7 +1215,7 @@ func (e *env) runPrograms(r *rand.Rand, n int) {
 
 // runOffsets: MLOAD/MSTORE/MSTORE8 at offsets whose memory expansion cannot be paid must end in
 // an exceptional halt (all gas gone), never in a result and never in a crash.
-func (e *env) runOffsets(r *rand.Rand) {
+func (e *env) runOffsets(r *rand.Rand) bool {
 	n0 := e.n
 	defer func() { e.count(n0) }()
 	offs := []*big.Int{
@@ -1062,8 +1252,9 @@ func (e *env) runOffsets(r *rand.Rand) {
 			if v.class != "" {
 				v.wit.Operands = []string{"0x" + off.Text(16)}
 				e.c.Violation(v.class, v.msg, v.wit)
-				return
+				return false
 			}
 		}
 	}
+	return true
 }
